@@ -548,8 +548,12 @@ func (g *pcToyGen) crafted(rounds int) {
 			}
 		}
 		// ---- dln: h2 outside the group, wrong exponent (library prover); degenerate bases
-		if i%3 == 0 {
-			ms2 := pcDlnSets()[(i/3)%len(pcDlnSets())]
+		for _, ms2 := range []pcMtaSet{pcDlnSets()[(i/3)%2], pcDlnSets()[2]} {
+			// (the first two moduli are so small that one of 128 responses is always 0 or 1: nothing is ever accepted
+			// there; with the third one only the deviation decides)
+			if i%3 != 0 {
+				continue
+			}
 			pq := new(big.Int).Mul(ms2.Pp, ms2.Qp)
 			x := pcB(2 + g.rng.Int63n(pq.Int64()-2))
 			h2 := new(big.Int).Exp(ms2.H1, x, ms2.NT)
